@@ -65,8 +65,8 @@ type Dataset struct {
 	markedForDeletion    bool
 	PublicNamespaces     []string `json:"publicNamespaces"`
 	fullSyncID           string
-	fullSyncLeased       bool   // the running sync was started with a lease (HTTP); job-driven syncs are never leased
-	fullSyncGen          uint64 // incremented by every start; identifies a job-driven sync
+	fullSyncLeased       bool                  // the running sync was started with a lease (HTTP); job-driven syncs are never leased
+	fullSyncGen          uint64                // incremented by every start; identifies a job-driven sync
 	ProxyConfig          *ProxyDatasetConfig   `json:"proxyConfig"`
 	VirtualDatasetConfig *VirtualDatasetConfig `json:"virtualDatasetConfig"`
 }
@@ -81,47 +81,72 @@ func NewDataset(store *Store, id string, internalID uint32, subjectIdentifier st
 	return &dataset
 }
 
+// All full sync state (fullSyncStarted, fullSyncSeen, fullSyncID, fullSyncLease,
+// fullSyncLeased, fullSyncGen) is guarded by WriteLock.
+
 // StartFullSync Indicates that a full sync is starting
 func (ds *Dataset) StartFullSync() error {
-	if ds.fullSyncStarted {
-		if ds.fullSyncLease != nil && ds.fullSyncLease.cancel != nil {
-			ds.fullSyncLease.cancel()
-		}
-
-		ds.fullSyncLease = nil
-		ds.fullSyncID = ""
-	}
-
-	ds.fullSyncLeased = false
-	ds.fullSyncStarted = true
-	ds.fullSyncSeen = make(map[uint64]int)
-	ds.fullSyncGen++
-
+	ds.WriteLock.Lock()
+	defer ds.WriteLock.Unlock()
+	ds.startFullSync()
 	return nil
 }
 
 // StartFullSyncGen starts a job-driven full sync and returns its generation, to
 // be handed to CompleteFullSyncGen.
 func (ds *Dataset) StartFullSyncGen() (uint64, error) {
-	err := ds.StartFullSync()
-	return ds.fullSyncGen, err
+	ds.WriteLock.Lock()
+	defer ds.WriteLock.Unlock()
+	ds.startFullSync()
+	return ds.fullSyncGen, nil
+}
+
+func (ds *Dataset) startFullSync() {
+	if ds.fullSyncLease != nil && ds.fullSyncLease.cancel != nil {
+		ds.fullSyncLease.cancel()
+	}
+	ds.fullSyncLease = nil
+	ds.fullSyncID = ""
+	ds.fullSyncLeased = false
+	ds.fullSyncStarted = true
+	ds.fullSyncSeen = make(map[uint64]int)
+	ds.fullSyncGen++
+}
+
+func (ds *Dataset) resetFullSync() {
+	ds.fullSyncStarted = false
+	ds.fullSyncSeen = make(map[uint64]int) // release sync state
+	ds.fullSyncLease = nil                 // unset lease
+	ds.fullSyncID = ""                     // unset id
+	ds.fullSyncLeased = false
 }
 
 func (ds *Dataset) StartFullSyncWithLease(fullSyncID string) error {
-	if err := ds.StartFullSync(); err != nil {
-		return err
-	}
+	ds.WriteLock.Lock()
+	defer ds.WriteLock.Unlock()
+	ds.startFullSync()
 	ds.fullSyncID = fullSyncID
 	ds.fullSyncLeased = true
 
-	return ds.RefreshFullSyncLease(fullSyncID)
+	return ds.refreshFullSyncLease(fullSyncID)
 }
 
 func (ds *Dataset) RefreshFullSyncLease(fullSyncID string) error {
+	ds.WriteLock.Lock()
+	defer ds.WriteLock.Unlock()
+	return ds.refreshFullSyncLease(fullSyncID)
+}
+
+func (ds *Dataset) refreshFullSyncLease(fullSyncID string) error {
 	if ds.fullSyncStarted {
 		if fullSyncID == ds.fullSyncID {
 			if !ds.fullSyncLeased {
 				// job-driven sync: an id-less write is part of it, but never arms a lease
+				return nil
+			}
+			if ds.fullSyncLease != nil && ds.fullSyncLease.released {
+				// the end request is completing this sync right now: a late batch
+				// still belongs to it, but must not arm a new lease
 				return nil
 			}
 			// cancel previous lease
@@ -140,13 +165,11 @@ func (ds *Dataset) RefreshFullSyncLease(fullSyncID string) error {
 				if !errors.Is(ctx.Err(), context.DeadlineExceeded) {
 					return // canceled by refresh, release or a new start. do nothing
 				}
-				// time out was the cause. only the current, unreleased lease may reset the sync
+				// time out was the cause
+				ds.WriteLock.Lock()
+				defer ds.WriteLock.Unlock()
 				if ds.fullSyncLease == lease && !lease.released {
-					ds.fullSyncStarted = false
-					ds.fullSyncSeen = make(map[uint64]int)
-					ds.fullSyncID = ""
-					ds.fullSyncLease = nil
-					ds.fullSyncLeased = false
+					ds.resetFullSync()
 				} // else this lease is not the current one any more
 			}()
 
@@ -162,6 +185,8 @@ func (ds *Dataset) RefreshFullSyncLease(fullSyncID string) error {
 }
 
 func (ds *Dataset) ReleaseFullSyncLease(fullSyncID string) error {
+	ds.WriteLock.Lock()
+	defer ds.WriteLock.Unlock()
 	if ds.fullSyncLease == nil {
 		return errors.New("no active fullsync lease found, can't complete")
 	}
@@ -173,29 +198,33 @@ func (ds *Dataset) ReleaseFullSyncLease(fullSyncID string) error {
 	return nil
 }
 
-// CompleteFullSyncGen completes the job-driven full sync started by
-// StartFullSyncGen, unless another sync has superseded it in the meantime.
-func (ds *Dataset) CompleteFullSyncGen(ctx context.Context, gen uint64) error {
-	if !ds.fullSyncStarted || ds.fullSyncGen != gen {
-		return errors.New("fullsync was superseded by another fullsync, nothing completed")
-	}
-	return ds.CompleteFullSync(ctx)
-}
-
 // CompleteFullSync Full sync completed - mark unseen entities as deleted
 func (ds *Dataset) CompleteFullSync(ctx context.Context) error {
 	verifhook.Point("ds.completeFullSync.begin")
-	defer func() {
-		ds.fullSyncStarted = false
-		ds.fullSyncSeen = make(map[uint64]int) // release sync state
-		ds.fullSyncLease = nil                 // unset lease
-		ds.fullSyncID = ""                     // unset id
-		ds.fullSyncLeased = false
-	}()
+	ds.WriteLock.Lock()
+	defer ds.WriteLock.Unlock()
+	return ds.completeFullSync(ctx)
+}
 
-	// check all seen and mark deleted
-	txn := ds.store.database.NewTransaction(true)
-	defer txn.Discard()
+// CompleteFullSyncGen completes the job-driven full sync started by
+// StartFullSyncGen, unless another sync has superseded it in the meantime.
+func (ds *Dataset) CompleteFullSyncGen(ctx context.Context, gen uint64) error {
+	verifhook.Point("ds.completeFullSync.begin")
+	ds.WriteLock.Lock()
+	defer ds.WriteLock.Unlock()
+	if !ds.fullSyncStarted || ds.fullSyncGen != gen {
+		return errors.New("fullsync was superseded by another fullsync, nothing completed")
+	}
+	return ds.completeFullSync(ctx)
+}
+
+// completeFullSync runs with WriteLock held, so that the scan for unseen
+// entities and the tombstones it writes are atomic towards other writers.
+func (ds *Dataset) completeFullSync(ctx context.Context) error {
+	if !ds.fullSyncStarted {
+		return errors.New("no fullsync is running, nothing completed")
+	}
+	defer ds.resetFullSync()
 
 	deleteBatch := make([]*Entity, 0)
 	_, err := ds.MapEntities("", -1, func(e *Entity) error {
@@ -210,7 +239,7 @@ func (ds *Dataset) CompleteFullSync(ctx context.Context) error {
 				deleteBatch = append(deleteBatch, e)
 			}
 			if len(deleteBatch) == 1000 {
-				err := ds.StoreEntities(deleteBatch)
+				err := ds.storeEntities(deleteBatch)
 				if err != nil {
 					return err
 				}
@@ -225,7 +254,7 @@ func (ds *Dataset) CompleteFullSync(ctx context.Context) error {
 
 	// store remaining
 	if len(deleteBatch) > 0 {
-		err := ds.StoreEntities(deleteBatch)
+		err := ds.storeEntities(deleteBatch)
 		if err != nil {
 			return err
 		}
@@ -262,6 +291,15 @@ func (ds *Dataset) StoreEntities(entities []*Entity) (Error error) {
 		ds.WriteLock.Unlock()
 		verifhook.LockFree("ds:" + ds.ID)
 	}()
+
+	return ds.storeEntities(entities)
+}
+
+// storeEntities stores a batch; the caller holds WriteLock.
+func (ds *Dataset) storeEntities(entities []*Entity) (Error error) {
+	if len(entities) == 0 {
+		return nil
+	}
 
 	// need this to ensure time moves forward in high perf environments.
 	time.Sleep(time.Nanosecond * 1)
@@ -1165,5 +1203,7 @@ func (ds *Dataset) GetContext() *Context {
 }
 
 func (ds *Dataset) FullSyncStarted() bool {
+	ds.WriteLock.Lock()
+	defer ds.WriteLock.Unlock()
 	return ds.fullSyncStarted
 }
